@@ -1188,7 +1188,13 @@ class Acceptor:
                     # there while the operation does not reach the submachine, whatever the predicate says now
                     left = [o for o in left if o.dispatched == 0 and not self.ever_deferrable(mi, o.typ)]
                 if left and not self.blocked(mi, left[0].typ):
-                    self.reject({'C04'}, 'queued-not-dispatched', 'empty queue on %s, has %s' % (mi.name, left))
+                    tags = {'C04'}
+                    sq = (getattr(self, 'snap_queues', None) or {}).get(self.ix.machine_path(mi.name))
+                    if sq is not None and sq[0] == 0 and not self.has_candidates(mi, left[0].typ):
+                        # the library's queue is empty: the occurrence was dispatched, but the no_transition
+                        # report its dispatch owes (nothing matches it) never came
+                        tags = {'C04', 'C06'}
+                    self.reject(tags, 'queued-not-dispatched', 'empty queue on %s, has %s' % (mi.name, left))
             if op in ('process', 'drain') or (op == 'drain1' and not self.mp):
                 for d in mi.deferred:
                     if self.list_defers(mi, d.typ, self.mp):
@@ -1338,6 +1344,8 @@ class Acceptor:
                 self.reject({'C06'}, 'zero-code', 'zero=%s' % (rc_expected == 0), nxt)
         threw_in_op = self.counts.get('throws', 0) != threw_before or self.threw
         self.threw = False
+        nxt = self.peek()
+        self.snap_queues = parse_snap(nxt)[1] if (nxt is not None and nxt.k == 'SNAP') else None
         self.quiescent(root, 'blocked' if (rc_expected == 'blocked' or was_early) else op)
         nxt = self.peek()
         if nxt is not None and nxt.k == 'SNAP':
